@@ -142,6 +142,9 @@ class Script:
         self.alias = mk()
         self.db2 = Id(gen_unquoted(r), False)
         self.tagname = Id(gen_unquoted(r), False)
+        self.jalias = Id(gen_unquoted(r), False)
+        while self.jalias.norm_py.upper() in {x_.norm_py.upper() for x_ in self.cols + self.tabs}:
+            self.jalias = Id(gen_unquoted(r), False)
         self.n = 0
 
     def stmts(self, length: int) -> list:
@@ -216,6 +219,22 @@ class Script:
                      k("when matched"), k("then update set"), t0, x("."), b, x("="), t1, x("."), b,
                      k("when not matched"), k("then insert"), x("("), a, x(","), b, x(")"), k("values"), x("("), t1, x("."), a, x(","), t1, x("."), b, x(")")],
             lambda: [k("merge into"), t0, k("using"), t1, k("on"), t0, x("."), a, x("="), t1, x("."), a, k("when matched"), k("then delete")],
+            # transforms that compare identifiers with each other inside ONE statement (every occurrence is re-spelled independently):
+            # select alias used in JOIN … ON (alias_in_join), COLUMNn of VALUES (values_columns), FLATTEN alias, subquery/table aliases,
+            # MERGE source alias, GROUP BY / ORDER BY / HAVING on an alias, correlated subquery
+            lambda: [k("select"), t0, x("."), a, k("as"), self.jalias, x(","), t1, x("."), b, k("from"), t0, k("join"), t1, k("on"), self.jalias, x("="), t1, x("."), a, k("order by"), x("1")],
+            lambda: [k("select"), t0, x("."), a, k("as"), self.jalias, k("from"), t0, k("left join"), t1, k("on"), self.jalias, x("="), t1, x("."), a, k("where"), self.jalias, x("> 0"), k("order by"), self.jalias],
+            lambda: [k("select"), k("column1"), x(","), k("column2"), k("from"), k("values"), x("(1, 'a'), (2, 'b')"), k("order by"), k("column1")],
+            lambda: [k("select"), self.jalias, x("."), a, x(","), self.view, x("."), a, k("from"), t0, k("as"), self.jalias, k("join"), t1, k("as"), self.view, k("on"), self.jalias, x("."), a, x("="), self.view, x("."), a, k("order by"), x("1")],
+            lambda: [k("select"), self.jalias, x("."), k("value"), k("from"), k("table"), x("("), k("flatten"), x("("), k("input"), x("=>"), k("parse_json"), x("('[1, 2]')))"), k("as"), self.jalias],
+            lambda: [k("select"), self.jalias, x("."), c, k("from"), x("("), k("select"), c, k("from"), t0, x(")"), k("as"), self.jalias, k("where"), self.jalias, x("."), c, x("> 5"), k("order by"), x("1")],
+            lambda: [k("select"), b, k("as"), self.jalias, x(","), k("count"), x("(*)"), k("from"), t0, k("group by"), self.jalias, k("having"), k("count"), x("(*) > 0"), k("order by"), self.jalias],
+            lambda: [k("select"), a, k("from"), t0, k("where"), k("exists"), x("("), k("select"), x("1"), k("from"), t1, k("where"), t1, x("."), a, x("="), t0, x("."), a, x(")"), k("order by"), a],
+            lambda: [k("merge into"), t0, k("using"), x("("), k("select"), a, x(","), b, k("from"), t1, x(")"), k("as"), self.jalias, k("on"), t0, x("."), a, x("="), self.jalias, x("."), a,
+                     k("when matched then update set"), b, x("="), self.jalias, x("."), b],
+            lambda: [k("update"), t0, k("set"), b, x("="), t1, x("."), b, k("from"), t1, k("where"), t0, x("."), a, x("="), t1, x("."), a],
+            lambda: [k("delete from"), t0, k("using"), t1, k("where"), t0, x("."), a, x("="), t1, x("."), a, k("and"), t1, x("."), a, x("> 100")],
+            lambda: [k("with"), self.jalias, k("as"), x("("), k("select"), a, x(","), c, k("from"), t0, x(")"), k("select"), self.jalias, x("."), a, k("from"), self.jalias, k("join"), t1, k("on"), self.jalias, x("."), a, x("="), t1, x("."), a, k("order by"), x("1")],
             # statements sqlglot hands over as raw-text Commands / fakesnow recognises by keyword text (transforms.tag, expr.key_command, …)
             lambda: [k("alter table"), t0, k("modify column"), b, k("set tag"), self.tagname, x("= 'sales'")],
             lambda: [k("alter table"), t0, k("alter column"), b, k("set tag"), self.tagname, x("= 'x y'")],
